@@ -559,6 +559,15 @@ func cpuCasesCmd(args []string) int {
 	defer func() { wc.Flush(); w65.Flush(); wAlt.Flush(); fc.Close(); f65.Close(); fAlt.Close() }()
 	stats := map[string]int{}
 	id := 0
+	iAll, iStop := -1, -1
+	for i, n := range names {
+		if n == "AllCycles" {
+			iAll = i
+		}
+		if n == "Stopped" {
+			iStop = i
+		}
+	}
 	emit := func(c cpuCase) {
 		fmt.Fprintln(wc, c.line(names))
 		a := r65.run(&c, names)
@@ -591,6 +600,19 @@ func cpuCasesCmd(args []string) int {
 					stats["c12_cycles"]++
 					if stats["c12_cycles"] <= 5 {
 						fmt.Printf("FAIL C12 case=%d step=%d interp=%d cycles=%d\n", c.id, i, which, s.cycles)
+					}
+				} else if iAll >= 0 && iStop >= 0 {
+					// AllCycles advances by exactly the reported cycles; the stop flag is the Stopped field
+					prev := c.regs[iAll]
+					if i > 0 {
+						prev = rs[i-1].regs[iAll]
+					}
+					if s.regs[iAll] != prev+uint64(s.cycles) || s.stopped != (s.regs[iStop] != 0) {
+						stats["c12_account"]++
+						if stats["c12_account"] <= 5 {
+							fmt.Printf("FAIL C12 case=%d step=%d interp=%d opcode=%02x cycles=%d AllCycles %d -> %d stopped=%v Stopped=%d\n",
+								c.id, i, which, cpuOpcodeAt(&c), s.cycles, prev, s.regs[iAll], s.stopped, s.regs[iStop])
+						}
 					}
 				}
 			}
